@@ -18,6 +18,7 @@ func init() {
 		Text{}, Emit{}, EmitIf{}, EmitFor{}, Code{}, Comment{},
 		ExprS{}, LetS{}, AssignS{}, ReturnS{}, BreakS{}, ContinueS{}, IfS{}, ForS{},
 		If{}, ElseIf{}, For{},
+		KV{}, EmitPartial{}, ContentFor{}, EmitContentOf{}, EmitBlock{},
 	} {
 		t := reflect.TypeOf(v)
 		astTypes[t.Name()] = t
